@@ -113,6 +113,35 @@ def build_catalog(rng):
          msgs=[("_", "a", True), ("_", "b", False)])
     last("nested", "cons", '<%def name="f@()">\n<%call expr="g(' + M("a") + ')">\n<%\n  y = ' + M("b") + "\n%>\n</%call>\n</%def>\n",
          msgs=[("_", "a", False), ("_", "b", False)])
+    # ---- deeper nesting, ngettext outside ${}, a custom keyword
+    last("nested3", "cons", '<%def name="f@()">\n<%call expr="g(' + M("a") + ')">\n<%def name="h@(x=' + M("b") + ')">\n<%block>\n% if '
+         + M("c") + ":\n${" + M("d") + "}\n% endif\n</%block>\n</%def>\n</%call>\n</%def>\n",
+         msgs=[("_", "a", False), ("_", "b", False), ("_", "c", False), ("_", "d", False)])
+    last("block-ngettext", "cons", "<%\n   n = 2\n   y = " + F + "ngettext('m@s\u00a4', 'm@p\u00a4', n)\n%>\n", msgs=[("ngettext", "s", True, True)])
+    last("ctl-gettext", "cons", "% if " + M("a", "gettext") + ":\nx\n% endif\n", msgs=[("gettext", "a", True)], ls=True)
+    last("expr-custom-keyword", "cons", "${" + M("a", "tr") + "}\n", msgs=[("tr", "a", True)])
+    # ---- every Python-bearing kind with every style of line break: after the opening delimiter (K1), between the
+    # arguments / statements (K2), before the closer (K3); calls on the first, a middle and the last line
+    three = [("_", "a", True), ("_", "b", True), ("_", "c", True)]
+    kinds = [
+        ("expr", lambda k1, k2, k3: "${" + k1 + "(" + M("a") + " +" + k2 + " " + M("b") + " +" + k2 + " " + M("c") + ")" + k3 + "}\n"),
+        ("block", lambda k1, k2, k3: "<%" + (k1 or " ") + "x = " + M("a") + (k2 or "\n") + "y = " + M("b") + (k2 or "\n") + "z = " + M("c") + (k3 or " ") + "%>\n"),
+        ("modblock", lambda k1, k2, k3: "<%!" + (k1 or " ") + "x = " + M("a") + (k2 or "\n") + "y = " + M("b") + (k2 or "\n") + "z = " + M("c") + (k3 or " ") + "%>\n"),
+        ("defsig", lambda k1, k2, k3: '<%def name="f@(' + k1 + "a=" + M("a") + "," + k2 + " b=" + M("b") + "," + k2 + " c=" + M("c") + k3 + ')">d</%def>\n'),
+        ("pageargs", lambda k1, k2, k3: '<%page args="' + k1 + "a=" + M("a") + "," + k2 + " b=" + M("b") + "," + k2 + " c=" + M("c") + k3 + '"/>\n'),
+        ("blockargs", lambda k1, k2, k3: '<%block name="b@" args="' + k1 + "a=" + M("a") + "," + k2 + " b=" + M("b") + "," + k2 + " c=" + M("c") + k3 + '">x</%block>\n'),
+        ("callexpr", lambda k1, k2, k3: '<%call expr="' + k1 + "f(" + M("a") + "," + k2 + " " + M("b") + "," + k2 + " " + M("c") + k3 + ')">c</%call>\n'),
+        ("nscall", lambda k1, k2, k3: '<%ns:f a="${' + k1 + "(" + M("a") + " +" + k2 + " " + M("b") + " +" + k2 + " " + M("c") + ")" + k3 + '}"/>\n'),
+    ]
+    styles = [("none", "", "", "")] + [(n, b, b, "\n" if j % 2 else "") for j, (n, b) in enumerate(lc.BREAK_STYLES)] + \
+             [("two-leading", "\n\n", "\n", "\n"), ("leading-only", "\n", "", "")]
+    for kn, mk in kinds:
+        for sn, k1, k2, k3 in styles:
+            if kn != "expr" and sn == "leading-only" and kn in ("block", "modblock"):
+                continue
+            E.append(_item("%s.brk-%s" % (kn, sn), "cons", mk(k1, k2 or (" " if kn not in ("block", "modblock") else ""), k3), msgs=three, group="brk"))
+    E.append(_item("ctl.brk-continuation", "cons", "% if (" + M("a") + " or \\\n   " + M("b") + " or \\\n  " + M("c") + "):\nx\n% endif\n",
+                   msgs=three, ls=True, group="brk"))
     return E, c
 
 
@@ -163,7 +192,7 @@ def expected(E, case, suffix):
 
 
 class _Opts:
-    keywords = []
+    keywords = ["tr"]
     domain = None
     comment_tag = True
 
@@ -173,7 +202,7 @@ def run_babel(text, enc, declare_option=True):
     try:
         got = []
         opts = {"encoding": enc} if declare_option else {}
-        for (line, fn, msgs, cm) in extract(io.BytesIO(text.encode(enc)), ["_", "gettext", "ngettext"], [TAG], opts):
+        for (line, fn, msgs, cm) in extract(io.BytesIO(text.encode(enc)), ["_", "gettext", "ngettext", "tr"], [TAG], opts):
             if isinstance(msgs, str):
                 msgs = [msgs]
             got.append({"line": line, "fn": fn, "msgs": [m for m in msgs if isinstance(m, str)], "cm": list(cm)})
@@ -350,6 +379,13 @@ def check(run):
         run.spec_violation(res)
         return {"rule": "model violated", "exhaustive": False}
     n3 = take(res)
+    # every style of line break inside every Python-bearing kind, calls on the first / a middle / the last line
+    brk = [i + 1 for i, e in enumerate(E) if e["group"] == "brk"]
+    res = run.tlc("MC_Extract", cfg(dpre, brk, 1, ["lf", "crlf"], magic), name="mc-break-styles", workers=workers, extra_files=files, timeout=1500)
+    if res.violated:
+        run.spec_violation(res)
+        return {"rule": "model violated", "exhaustive": False}
+    n3 += take(res)
     got_src = {(c["src"]["decl"], c["src"]["enc"], c["src"]["mc"]) for c in cases if c["src"]["enc"] != "any"}
     if len(got_src) != 36:
         raise MachineryError("declaration instance covers %d of 36 (declaration, codec, message class) triples" % len(got_src))
